@@ -446,6 +446,10 @@ func (m *Model) refBalance(v view, tip [32]byte, addr string) *big.Int {
 
 // balanceAt asks the node for the balance of addr with the given tip forced to be the one used.
 func (m *Model) balanceAt(i int, tipName string, addr string) (spice.Melange, error) {
+	return m.balanceOn(m.nodes[i], tipName, addr)
+}
+
+func (m *Model) balanceOn(n *world.Node, tipName string, addr string) (spice.Melange, error) {
 	vsched.SetMapPolicy(func(label string, keys []string) int {
 		// CalculateBalance uses the LAST leaf visited: visit every other leaf first
 		for j, k := range keys {
@@ -456,7 +460,7 @@ func (m *Model) balanceAt(i int, tipName string, addr string) (spice.Melange, er
 		return 0
 	})
 	defer vsched.SetMapPolicy(nil)
-	b, err := m.nodes[i].Book.CalculateBalance(context.Background(), addr)
+	b, err := n.Book.CalculateBalance(context.Background(), addr)
 	vsched.Settle()
 	return b.Spice, err
 }
